@@ -376,4 +376,26 @@ theorem pick_slice_length_eq {α : Type} (xs : List α) (a b c : Option Int) (id
     unfold pick at this ⊢
     simp [List.getElem?_eq_getElem hi, this]
 
+/-- when every position is inside, the `j`-th element picked is the element at the `j`-th position -/
+theorem pick_getElem {α : Type} (xs : List α) (idx : List Nat) (hb : ∀ i, i ∈ idx → i < xs.length)
+    (j : Nat) (hj : j < idx.length) : (pick xs idx)[j]? = xs[idx[j]]? := by
+  induction idx generalizing j with
+  | nil => simp at hj
+  | cons i r ih =>
+    have hi : i < xs.length := hb i (List.mem_cons_self ..)
+    have e : pick xs (i :: r) = xs[i] :: pick xs r := by
+      unfold pick; simp [List.getElem?_eq_getElem hi]
+    rw [e]
+    cases j with
+    | zero => simp [List.getElem?_eq_getElem hi]
+    | succ j =>
+      simp only [List.getElem?_cons_succ, List.getElem_cons_succ]
+      exact ih (fun k hk => hb k (List.mem_cons_of_mem _ hk)) j (by simpa using hj)
+
+/-- **the `j`-th element of any slice is the element at the `j`-th selected position** -/
+theorem slice_getElem {α : Type} (xs : List α) (a b c : Option Int) (idx : List Nat)
+    (h : sliceIndices xs.length a b c = .ok idx) (j : Nat) (hj : j < idx.length) :
+    (pick xs idx)[j]? = xs[idx[j]]? :=
+  pick_getElem xs idx (sliceIndices_mem_lt _ _ _ _ _ h) j hj
+
 end Sq
